@@ -12,6 +12,7 @@ random interpretations with exact quantifier evaluation, plus shape predicates w
 import json
 import os
 import random
+import time
 import traceback
 
 import pysmt.operators as op
@@ -46,6 +47,9 @@ ASSUMPTIONS = [
     "TimesDistributor theorem: +,-,* over leaves fixed by the walker, all denoting Int (resp. Real) under I (arith, kinded_*)",
     "propagate_toplevel: the SEARCH oracle runs both do_simplify=False and the default do_simplify=True",
 ]
+
+# size of the directed families drawn on every quick run (the whole family is used on escalation)
+DIRECTED = int(os.environ.get("VERIF_C10_DIRECTED", "300"))
 
 CONNECTIVES = (op.AND, op.OR, op.NOT, op.IMPLIES, op.IFF)
 
@@ -237,6 +241,88 @@ def describe(d):
     return {"interpretation": d.interp.describe(), "value_of_input": str(d.value_f), "value_of_output": str(d.value_g)}
 
 
+def differs_strong(rnd, f, g, nrandom=40):
+    """Escalated oracle: ALL interpretations when the free symbols are finite-sorted (<= 512 of them),
+    otherwise `nrandom` random ones over a wider integer range."""
+    try:
+        its = refeval.exhaustive_interps([f, g], limit=512)
+        if its is None:
+            its = refeval.random_interps(rnd, [f, g], nrandom // 2, div0="raise") + \
+                refeval.random_interps(rnd, [f, g], nrandom // 2, div0="raise", int_range=(-3, 3))
+        return refeval.first_difference(f, g, its, exact_only=True)
+    except refeval.RefEvalError as ex:
+        return ("oracle-error", repr(ex))
+
+
+# ------------------------------------------------------------------------------------------
+# directed families (second-round seeds C10-D / C10-E)
+# ------------------------------------------------------------------------------------------
+
+def shared_quantified_family(m, rnd, limit=None):
+    """DAG sharing of QUANTIFIED sub-formulas: one quantified node I = Q y. body (x, z free in it)
+    occurs 2-3 times in one formula under different contexts - under a same-kind binder of its free
+    variable x, under the other kind, under Not, bare, in either position of Implies / Iff / Ite -
+    in every order of the occurrences among the arguments of And / Or.  Boolean and BV1 variables
+    only, so the reference evaluator decides every case exactly and exhaustively.
+    Size of the full family: 2 sorts x 2 kinds x 6 bodies x (11*11 ordered pairs x 2 connectives
+    + 240 sampled ordered triples) = 11 568 formulas; `limit` draws a seeded sample of it."""
+    out = []
+    for sort in ("bool", "bv1"):
+        if sort == "bool":
+            x, y, z, w = [m.Symbol("q%s" % c, BOOL) for c in "xyzw"]
+            ax, ay, az, aw = x, y, z, w
+        else:
+            x, y, z, w = [m.Symbol("v%s" % c, BVType(1)) for c in "xyzw"]
+            one = m.BV(1, 1)
+            ax, ay, az, aw = [m.Equals(v, one) for v in (x, y, z, w)]
+        bodies = [m.And(ax, ay), m.Or(m.Not(ax), m.Iff(ay, az)), m.Iff(ax, ay), m.Implies(ay, ax),
+                  m.Or(m.And(ax, ay), az), m.Ite(ay, ax, m.Not(az))]
+        for ex in (True, False):
+            Q, Qo = (m.Exists, m.ForAll) if ex else (m.ForAll, m.Exists)
+            for body in bodies:
+                I = Q([y], body)
+                ctxs = [I, m.Not(I), Q([x], I), Qo([x], I), m.Not(Q([x], I)), Q([x], m.Not(I)),
+                        m.Implies(I, az), m.Implies(aw, I), m.Iff(I, aw), m.Ite(I, az, aw), m.Ite(aw, I, Q([x], I))]
+                for c1 in ctxs:
+                    for c2 in ctxs:
+                        out.append(m.And(c1, c2))
+                        out.append(m.Or(c1, c2))
+                trip = random.Random(len(out))
+                for _ in range(240):
+                    cs = [trip.choice(ctxs) for _ in range(3)]
+                    out.append(trip.choice([m.And, m.Or])(cs))
+    if limit is not None and limit < len(out):
+        # always keep the seed-shaped members, sample the rest
+        out = rnd.sample(out, limit)
+    return out
+
+
+def td_units_family(m, rnd, limit=None):
+    """n-ary Plus / Times (arity 3-5) with the unit / absorbing constants 1, -1, 0 at every argument
+    position, nested inside Minus on either side, and products of sums with such factors; Int and Real.
+    Full family: 2 sorts x (3 constants x (3+4+5 positions) x 2 operators x 5 wrappers + 3 x 12 x 3 products of sums)
+    = 936 terms; `limit` draws a seeded sample."""
+    out = []
+    for ty in (INT, REAL):
+        vs = [m.Symbol("%s%d" % ("i" if ty == INT else "r", k), ty) for k in range(5)]
+        a = m.Symbol("a_" + ("i" if ty == INT else "r"), ty)
+        cst = (lambda k: m.Int(k)) if ty == INT else (lambda k: m.Real(k))
+        for c in (1, -1, 0):
+            for arity in (3, 4, 5):
+                for pos in range(arity):
+                    args = list(vs[:arity - 1])
+                    args.insert(pos, cst(c))
+                    for mk in (m.Times, m.Plus):
+                        t = mk(args)
+                        out += [t, m.Minus(a, t), m.Minus(t, a), m.Minus(a, m.Minus(vs[4], t)), m.Minus(m.Minus(t, vs[4]), a)]
+                    out.append(m.Times(m.Plus(a, cst(c)), m.Times(args)))
+                    out.append(m.Minus(a, m.Times(m.Plus(vs[4], cst(c)), m.Times(args))))
+                    out.append(m.Times(m.Minus(a, m.Times(args)), m.Plus(vs[3], cst(c))))
+    if limit is not None and limit < len(out):
+        out = rnd.sample(out, limit)
+    return out
+
+
 # ------------------------------------------------------------------------------------------
 # one batch = one rewriter in a fresh Environment
 # ------------------------------------------------------------------------------------------
@@ -247,20 +333,30 @@ class Batch(object):
         self.cases = []       # (roots, body_fn)
         self.meta = []        # serialized input per case
         self.stats = {"impl_errors": 0, "oracle_checked": 0}
+        self.pairs = []       # (input, formula compared with it by the oracle, what, repro) per oracle comparison
+        self.found = 0        # violations with a concrete failing input reported by this batch
+        self.env, self.family, self.apply = None, None, None   # see targeted()
 
     def n(self, quick, thorough):
         return quick if self.tier == "quick" else thorough
 
-    def check_equiv(self, f, out, what, replay, key=None, ninterp=5):
+    def check_equiv(self, f, out, what, replay, key=None, ninterp=5, strong=False, remember=True):
         self.stats["oracle_checked"] += 1
-        d = differs(self.rnd, f, out, ninterp)
+        if remember and len(self.pairs) < 20000:
+            self.pairs.append((f, out, what, replay, key))
+        d = differs_strong(self.rnd, f, out) if strong else differs(self.rnd, f, out, ninterp)
         if d is None:
             return True
         info = {"kind": "input", "what": what, "input": f.serialize(), "output": out.serialize(), "repro": replay,
                 "oracle": "harness/refeval.py, exact quantifier evaluation"}
         info.update(describe(d))
-        self.chk.violation(info, key=key)
+        if self.chk.violation(info, key=key):
+            self.found += 1
         return False
+
+    def targeted(self, env, family, apply):
+        """Remember how to re-run this rewriter on a directed family (used by escalate())."""
+        self.env, self.family, self.apply = env, family, apply
 
 
 def opt_term(names, out):
@@ -275,6 +371,8 @@ def run_nnf(b):
         sg = SkelGen(env, b.rnd, [BOOL, BVType(1), BVType(2), INT, REAL, BVType(3)],
                      atom_cfg=Config(quantifiers=False, widths=(1, 2, 3), max_arity=3))
         m = env.formula_manager
+        b.targeted(env, shared_quantified_family,
+                   lambda f: [(NNFizer(env).convert(f), "nnf(f) does not have the value of f", "pysmt.rewritings.nnf(<input>)")])
         a, bb, c = [m.Symbol(x, BOOL) for x in "abc"]
         fixed = [m.Not(m.Ite(a, bb, c)), m.Not(m.Iff(a, m.Not(bb))), m.Implies(m.Not(a), m.Not(m.Not(bb))),
                  m.Not(m.ForAll([a], m.Exists([a], m.Or(a, bb))))]
@@ -313,6 +411,8 @@ def run_aig(b):
     try:
         sg = SkelGen(env, b.rnd, [BOOL, BVType(1), BVType(2), INT, REAL],
                      atom_cfg=Config(widths=(1, 2, 3), max_arity=3))
+        b.targeted(env, shared_quantified_family,
+                   lambda f: [(AIGer(env).convert(f), "aig(f) does not have the value of f", "pysmt.rewritings.aig(<input>)")])
         for i in range(b.n(500, 6000)):
             f = sg.gen(b.rnd.randint(1, 5))
             out = AIGer(env).convert(f)
@@ -382,6 +482,11 @@ def run_qelim(b):
     try:
         sg = SkelGen(env, b.rnd, [BOOL], atom_cfg=Config(quantifiers=False, widths=(1, 2, 3), max_arity=3))
         sg.max_qvars = 2
+        b.targeted(env, shared_quantified_family, lambda f: [
+            (cls(env).eliminate_quantifiers(f), "%s quantifier elimination changed the value of the formula" % nm,
+             "pysmt.solvers.qelim.%s(env).eliminate_quantifiers(<input>)" % cls.__name__)
+            for cls, nm in ((ShannonQuantifierEliminator, "shannon"), (SelfSubstitutionQuantifierEliminator, "selfsub"))
+            if all(v.symbol_type().is_bool_type() for n in tocoq.topo([f]) if n.is_quantifier() for v in n.quantifier_vars())])
         for i in range(b.n(500, 6000)):
             f = sg.gen(b.rnd.randint(1, 4))
             which = i % 2
@@ -418,6 +523,20 @@ def run_timesdist(b):
     try:
         g = FormulaGen(env, b.rnd, Config(bv=False, strings=False, arrays=False, custom=False, quantifiers=False, max_arity=3, reuse=0.3))
         m = env.formula_manager
+        what, repro = "TimesDistributor changed the value of the term", "pysmt.rewritings.TimesDistributor(env).walk(<input>)"
+        b.targeted(env, td_units_family, lambda f: [(TimesDistributor(env).walk(f), what, repro)])
+
+        def one(f, strong):
+            if tree_size(f) > 150:
+                return
+            out = TimesDistributor(env).walk(f)
+            if tree_size(out) > 1500:
+                b.stats["skipped_large"] = b.stats.get("skipped_large", 0) + 1
+                return
+            b.cases.append(([f, out], (lambda names, f=f, out=out: "(%s, %s)" % (names[f], names[out]))))
+            b.meta.append(f.serialize()[:400])
+            b.chk.count(("td", tocoq.skey(f)), nontrivial=out is not f)
+            b.check_equiv(f, out, what, repro, strong=strong)
         for i in range(b.n(400, 5000)):
             t = b.rnd.choice([INT, REAL, INT, REAL, BOOL])
             # sums/differences/products of small sums, so that distribution really happens
@@ -436,16 +555,11 @@ def run_timesdist(b):
                 f = b.rnd.choice([m.LE, m.LT, m.Equals])(arith(ty, 3), arith(ty, 2))
             else:
                 f = arith(t, b.rnd.randint(1, 4))
-            if tree_size(f) > 150:
-                continue
-            out = TimesDistributor(env).walk(f)
-            if tree_size(out) > 1500:
-                b.stats["skipped_large"] = b.stats.get("skipped_large", 0) + 1
-                continue
-            b.cases.append(([f, out], (lambda names, f=f, out=out: "(%s, %s)" % (names[f], names[out]))))
-            b.meta.append(f.serialize()[:400])
-            b.chk.count(("td", tocoq.skey(f)), nontrivial=out is not f)
-            b.check_equiv(f, out, "TimesDistributor changed the value of the term", "pysmt.rewritings.TimesDistributor(env).walk(<input>)")
+            one(f, False)
+        fam = td_units_family(m, b.rnd, b.n(DIRECTED, None))
+        b.stats["directed_family_cases"] = len(fam)
+        for f in fam:
+            one(f, True)
         b.chk.sample({"rewriter": "TimesDistributor", "input": b.meta[-1]})
     finally:
         pop_env()
@@ -466,26 +580,35 @@ def run_prenex(b):
         fixed = [m.And(px, m.Exists([x], m.Not(px))), m.Or(m.ForAll([x], px), m.ForAll([x], m.Not(px))),
                  m.Iff(m.Exists([x], px), m.Exists([y], px)), m.ForAll([x], m.Implies(px, m.Exists([x], px))),
                  m.Ite(m.Exists([x], px), m.ForAll([x], px), px)]
-        for i in range(b.n(500, 4000)):
-            f = fixed[i] if i < len(fixed) else sg.gen(b.rnd.randint(1, 4))
+        what, repro = "prenex_normal_form(f) does not have the value of f", "pysmt.rewritings.prenex_normal_form(<input>)"
+        b.targeted(env, shared_quantified_family, lambda f: [(prenex_normal_form(f, env), what, repro)])
+
+        def one(f, strong):
             if tree_size(f) > 300:
-                continue
+                return
             guess = m._fresh_guess
             try:
                 out = prenex_normal_form(f, env)
             except TypeError:
                 b.stats["impl_errors"] += 1     # a Boolean-sorted theory operator (array read) in a Boolean position
-                continue
+                return
             if tree_size(out) > 1500 or sum(len(n.quantifier_vars()) for n in tocoq.topo([out]) if n.is_quantifier()) > 7:
                 b.stats["skipped_large"] = b.stats.get("skipped_large", 0) + 1     # exact quantifier evaluation would take minutes
-                continue
+                return
             b.cases.append(([f, out], (lambda names, f=f, out=out, guess=guess: "(%d%%nat, %s, %s)" % (guess, names[f], names[out]))))
             b.meta.append(f.serialize()[:400])
             b.chk.count(("prenex", tocoq.skey(f)), nontrivial=out is not f)
-            b.check_equiv(f, out, "prenex_normal_form(f) does not have the value of f", "pysmt.rewritings.prenex_normal_form(<input>)")
+            b.check_equiv(f, out, what, repro, strong=strong)
             if not prenex_shape(out):
                 b.chk.violation({"kind": "input", "what": "prenex_normal_form(f) is not a quantifier prefix over a quantifier-free matrix",
                                  "input": f.serialize(), "output": out.serialize()}, key="prenex-shape:%s" % f.serialize()[:200])
+        for i in range(b.n(500, 4000)):
+            one(fixed[i] if i < len(fixed) else sg.gen(b.rnd.randint(1, 4)), False)
+        # directed family: shared quantified sub-formulas (every run; the whole family on escalation / thorough)
+        fam = shared_quantified_family(m, b.rnd, b.n(DIRECTED, 3000))
+        b.stats["directed_family_cases"] = len(fam)
+        for f in fam:
+            one(f, True)
         b.chk.sample({"rewriter": "prenex", "input": b.meta[-1]})
     finally:
         pop_env()
@@ -571,6 +694,39 @@ BATCHES = [("nnf", run_nnf), ("aig", run_aig), ("partition", run_partition), ("q
            ("prenex", run_prenex), ("proptop", run_proptop)]
 
 
+def escalate(b, budget=150.0):
+    """Targeted search, run when the correspondence of a rewriter differs and the ordinary oracle pass found no
+    failing input: (a) every comparison of the batch again with the escalated oracle (all interpretations when
+    the free symbols are finite-sorted, else 40 random ones incl. a small-integer grid); (b) the rewriter on the
+    complete directed family of the batch.  Stops after 3 failing inputs or `budget` seconds."""
+    t0 = time.time()
+    n = 0
+    for (f, out, what, repro, key) in b.pairs:
+        if b.found >= 3 or time.time() - t0 > budget / 2:
+            break
+        n += 1
+        b.check_equiv(f, out, what + " [escalated oracle]", repro, key=key, strong=True, remember=False)
+    m = 0
+    if b.found == 0 and b.family is not None:
+        push_env(b.env)
+        try:
+            for f in b.family(b.env.formula_manager, b.rnd, None):
+                if b.found >= 3 or time.time() - t0 > budget:
+                    break
+                try:
+                    outs = b.apply(f)
+                except Exception:   # noqa
+                    continue
+                for (out, what, repro) in outs:
+                    m += 1
+                    b.check_equiv(f, out, what + " [directed family]", repro, strong=True, remember=False)
+        finally:
+            pop_env()
+    b.stats["escalated"] = {"rechecked_comparisons": n, "directed_family_cases": m, "failing_inputs_found": b.found,
+                            "seconds": round(time.time() - t0, 1)}
+    b.chk.note("%s: escalated search: %d comparisons re-checked, %d directed cases, %d failing inputs" % (b.name, n, m, b.found))
+
+
 def run(tier, only=None):
     chk = lib.Check("C10", tier)
     rnd = random.Random(chk.seed)
@@ -611,6 +767,8 @@ def run(tier, only=None):
                     errs.append({"file": p, "error": out[-600:]})
                 else:
                     bad += [first + i for i in mm]
+            if (bad or errs) and batches[name].found == 0:
+                escalate(batches[name])
             corr[name] = {"cases": len(batches[name].cases), "disagreements": len(bad), "case_file_errors": len(errs)}
             corr[name].update(batches[name].stats)
             for i in bad[:3]:
@@ -630,7 +788,13 @@ def run(tier, only=None):
     return chk.finish(TRUSTED, ASSUMPTIONS,
                       "per rewriter, in a fresh Environment: random Boolean skeletons (and/or/not/implies/iff/Boolean ite/quantifiers "
                       "with re-used bound names and shared sub-DAGs) over atoms from gen/formulas.py (all theories); distinct = distinct "
-                      "inputs on which the rewriter is not the identity")
+                      "inputs on which the rewriter is not the identity; plus two directed families on every run (300 drawn of each; whole family on "
+                      "escalation): shared_quantified_family (one quantified node occurring 2-3 times under same-kind / other-kind binders of its "
+                      "free variable, Not, ->, <->, ite, all orders under And/Or; Bool and BV1; 11 568 formulas) for prenex (and nnf/aig/qelim on "
+                      "escalation) and td_units_family (n-ary Plus/Times with 1,-1,0 at every position, under Minus on either side, products of sums; "
+                      "Int and Real; 936 terms) for TimesDistributor, both decided by the escalated oracle (all interpretations of finite-sorted "
+                      "symbols, else 40 random incl. a small-integer grid); when a rewriter's correspondence differs and no failing input was "
+                      "found, escalate() re-checks every comparison of the batch with that oracle and runs the whole directed family")
 
 
 def replay(path):
